@@ -7,7 +7,7 @@ import os
 import re
 
 from .facts import (Facts, AnalysisBroken, VERIF, walk_expr, walk_all_exprs, walk_stmts, show, strip_casts, strip_copies,
-                    member_path)
+                    member_path, strip_conv)
 from .cfg import CFG
 from .genrules import GenModel, is_call, field_chain, callers_of
 from .nullshape import ParserShapes, GenShapes
@@ -138,7 +138,7 @@ def c02(rep, tier):
             inst = '%s: %s' % (f['q'], show(e))
             where = '%s:%d' % (rel(lib, f['file']), e['loc'][0])
             o = M.origin(f, idx)
-            if is_clamp(o):
+            if is_clamp(o, lib):
                 B.ok(inst, 'index clamped to size()-1', where)
                 continue
             ip = field_chain(o)
@@ -320,10 +320,24 @@ def c02(rep, tier):
             '%s:%d' % (rel(lib, amk['file']), amk['loc'][1]))
     clr = lib.fn('Theo::AST::clear')
     dels = [x for x in walk_all_exprs(clr['body']) if x.get('k') == 'delete']
-    loops = [s for s in walk_stmts(clr['body']) if s['k'] == 'rangefor' and field_chain(s['range'])[1][-1:] == ['all_allocated_nodes']]
-    loops += [s for s in walk_stmts(clr['body']) if s['k'] == 'for' and s.get('c') is not None and 'all_allocated_nodes.size()' in show(s['c']).replace('this->', '')
+    aliases = set()
+    for st in walk_stmts(clr['body']):
+        if st['k'] == 'decl':
+            for v in st['vars']:
+                if v.get('is_ref') and v.get('init') is not None and field_chain(strip_casts(v['init']))[1][-1:] == ['all_allocated_nodes']:
+                    aliases.add(v['d'])
+
+    def is_nodes(e):
+        e = strip_casts(e)
+        return e is not None and (field_chain(e)[1][-1:] == ['all_allocated_nodes'] or (e.get('k') == 'ref' and e.get('d') in aliases))
+
+    def size_bound(c):
+        c = strip_casts(c)
+        return c is not None and c.get('k') == 'bin' and c['op'] in ('<', '!=') and is_call(strip_casts(c['r']), '::size') and is_nodes(strip_casts(c['r'])['obj'])
+    loops = [s for s in walk_stmts(clr['body']) if s['k'] == 'rangefor' and is_nodes(s['range'])]
+    loops += [s for s in walk_stmts(clr['body']) if s['k'] == 'for' and s.get('c') is not None and size_bound(s['c'])
               and s.get('init') and s['init']['k'] == 'decl' and strip_casts(s['init']['vars'][0].get('init')).get('v') == 0 and '++' in show(s.get('inc'))]
-    clears = [x for x in walk_all_exprs(clr['body']) if is_call(x, '::clear') and field_chain(x['obj'])[1][-1:] == ['all_allocated_nodes']]
+    clears = [x for x in walk_all_exprs(clr['body']) if is_call(x, '::clear') and is_nodes(x['obj'])]
     in_loop = len(loops) == 1 and len(dels) == 1 and any(x is dels[0] for x in walk_all_exprs(loops[0]['body']))
     if len(dels) >= 1 and not in_loop and len(loops) != 1:
         D.unknown('AST::clear releases every node', 'the release loop has a shape that is not recognised')
@@ -710,10 +724,24 @@ def token_positions_rule(F, M, lib):
             F.ok(inst, 'position copied from a scanned token or the "-"/-1 placeholder', where)
 
 
-def is_clamp(e):
-    """MIN(a, size()-1) : (a < b) ? a : b"""
-    e = strip_casts(e)
-    if e is None or e.get('k') != 'cond':
+def is_clamp(e, lib=None, depth=0):
+    """MIN(a, size()-1) : (a < b) ? a : b,  std::min(a, size()-1),  or an in-repo helper that returns one of these"""
+    e = strip_conv(strip_casts(e)) if e is not None else None
+    if e is None or depth > 2:
+        return False
+    if e.get('k') == 'paren':
+        return is_clamp(e['e'], lib, depth)
+    if e.get('k') == 'call' and (e.get('callee') or '').split('<')[0] in ('std::min',) and len(e.get('args', [])) == 2:
+        return any('size() - 1' in show(strip_casts(a)) for a in e['args'])
+    if e.get('k') == 'call' and e.get('obj') is None and lib is not None and e.get('callee'):
+        g = lib.fn(e['callee'], optional=True)
+        if g is not None and g.get('body') is not None:
+            rets = [s2 for s2 in walk_stmts(g['body']) if s2['k'] == 'return' and s2.get('e') is not None]
+            others = [s2 for s2 in walk_stmts(g['body']) if s2['k'] not in ('return', 'block')]
+            if len(rets) == 1 and not others:
+                return is_clamp(rets[0]['e'], lib, depth + 1)
+        return False
+    if e.get('k') != 'cond':
         return False
     c = strip_casts(e['c'])
     if c.get('k') != 'bin' or c['op'] not in ('<', '<='):
@@ -722,7 +750,7 @@ def is_clamp(e):
     return show(strip_casts(c['l'])) == show(t) and show(strip_casts(c['r'])) == show(el) and 'size() - 1' in show(el)
 
 
-def nonempty_reason(M, lib, f, g, ev, seq, k_needed):
+def nonempty_reason(M, lib, f, g, ev, seq, k_needed, _depth=0):
     """structural argument that `seq` has at least k_needed elements at ev"""
     sname = show(seq)
     # J2': guard by an enclosing conditional expression  seq.empty() ? ... : seq.back()
@@ -737,15 +765,39 @@ def nonempty_reason(M, lib, f, g, ev, seq, k_needed):
                     return 'in the false branch of %s.empty() ? : ' % sname
                 if in_t and ctxt == '!' + sn0 + '.empty()':
                     return 'in the true branch of !%s.empty() ? : ' % sname
-    # J2: guards
+    # J2: guards (valid only if no element can be removed between the evaluation of the guard and the use)
+    def _kept(cn, reason):
+        if cn is None or cn.id < 0:
+            return reason
+        rms = [x for x in g.calls() if (x.e.get('callee') or '').split('::')[-1] in ('pop_back', 'clear', 'erase', 'resize') and x.e.get('obj') is not None and
+               show(strip_casts(x.e['obj'])) == sname and x is not ev]
+        for x in rms:
+            if x.node is ev.node:
+                if x.idx < ev.idx:
+                    return None
+                continue
+            seen, work = set(), list(x.node.succ)
+            while work:
+                n = work.pop()
+                if n.id in seen or n.id == cn.id:
+                    continue
+                seen.add(n.id)
+                if n is ev.node:
+                    return None
+                work.extend(n.succ)
+        return reason
     for cond, label, cn in g.guards_of(ev):
         c = strip_casts(cond)
         txt = show(c).replace(' ', '')
         sn = sname.replace(' ', '')
         if label is True and txt in ('!%s.empty()' % sn,) and k_needed == 1:
-            return 'guarded by !%s.empty()' % sname
+            _r = _kept(cn, 'guarded by !%s.empty()' % sname)
+            if _r:
+                return _r
         if label is False and txt == '%s.empty()' % sn and k_needed == 1:
-            return 'guarded by %s.empty() == false' % sname
+            _r = _kept(cn, 'guarded by %s.empty() == false' % sname)
+            if _r:
+                return _r
         # size tests that are top-level conjuncts of a true guard
         if label is True and c.get('k') == 'bin' and c['op'] == '&&':
             for y in walk_expr(c):
@@ -753,19 +805,29 @@ def nonempty_reason(M, lib, f, g, ev, seq, k_needed):
                         strip_casts(y['r']).get('k') == 'int' and conj_of(c, y):
                     n2 = strip_casts(y['r'])['v']
                     if (y['op'] == '==' and n2 >= k_needed) or (y['op'] == '>=' and n2 >= k_needed) or (y['op'] == '>' and n2 + 1 >= k_needed):
-                        return 'guarded by a conjunct %s.size() %s %d' % (sname, y['op'], n2)
+                        _r = _kept(cn, 'guarded by a conjunct %s.size() %s %d' % (sname, y['op'], n2))
+                        if _r:
+                            return _r
         if c.get('k') == 'bin' and sn + '.size()' in txt:
             l, r = strip_casts(c['l']), strip_casts(c['r'])
             if r.get('k') == 'int' and show(l).replace(' ', '').replace('(int)', '') == sn + '.size()':
                 n, op = r['v'], c['op']
                 if label is False and op == '!=' and n >= k_needed:
-                    return 'guarded by %s.size() == %d' % (sname, n)
+                    _r = _kept(cn, 'guarded by %s.size() == %d' % (sname, n))
+                    if _r:
+                        return _r
                 if label is True and op == '==' and n >= k_needed:
-                    return 'guarded by %s.size() == %d' % (sname, n)
+                    _r = _kept(cn, 'guarded by %s.size() == %d' % (sname, n))
+                    if _r:
+                        return _r
                 if label is True and op == '>' and n + 1 >= k_needed:
-                    return 'guarded by %s.size() > %d' % (sname, n)
+                    _r = _kept(cn, 'guarded by %s.size() > %d' % (sname, n))
+                    if _r:
+                        return _r
                 if label is True and op == '>=' and n >= k_needed:
-                    return 'guarded by %s.size() >= %d' % (sname, n)
+                    _r = _kept(cn, 'guarded by %s.size() >= %d' % (sname, n))
+                    if _r:
+                        return _r
         # through a bool variable holding the size test
         if c.get('k') == 'bin' and c['op'] == '&&' or c.get('k') == 'ref':
             for x in walk_expr(c):
@@ -774,7 +836,32 @@ def nonempty_reason(M, lib, f, g, ev, seq, k_needed):
                     for y in walk_expr(o):
                         if y.get('k') == 'bin' and y['op'] == '==' and show(strip_casts(y['l'])).replace(' ', '') == sn + '.size()' and \
                                 strip_casts(y['r']).get('k') == 'int' and strip_casts(y['r'])['v'] >= k_needed and conj_of(o, y):
-                            return 'guarded by %s (which requires %s.size() == %d)' % (x['name'], sname, strip_casts(y['r'])['v'])
+                            _r = _kept(cn, 'guarded by %s (which requires %s.size() == %d)' % (x['name'], sname, strip_casts(y['r'])['v']))
+                            if _r:
+                                return _r
+    # J4: the sequence is a reference parameter, every caller passes a sequence that is non-empty at the call, and nothing
+    #     removes elements between the entry of this function and the use
+    s0 = strip_casts(seq)
+    if s0 is not None and s0.get('k') == 'ref' and s0.get('dk') == 'param' and _depth < 2:
+        pidx = [i for i, p in enumerate(f['params']) if p.get('d') == s0.get('d') and '&' in (p.get('cty') or '')]
+        rm = [x for x in g.calls() if (x.e.get('callee') or '').split('::')[-1] in ('pop_back', 'clear', 'erase', 'resize') and x.e.get('obj') is not None and
+              show(strip_casts(x.e['obj'])) == sname and g.can_follow(x, ev) and x is not ev]
+        if pidx and not rm:
+            callers = [(g2, c2) for g2 in lib.functions if g2.get('body') is not None and g2['tmpl'] in ('none', 'inst')
+                       for c2 in walk_all_exprs(g2['body']) if c2.get('k') == 'call' and c2.get('callee') == f['q'] and c2.get('obj') is None]
+            reasons = []
+            for g2, c2 in callers:
+                if len(c2['args']) <= pidx[0]:
+                    reasons = []
+                    break
+                gg = M.cfg(g2)
+                r = nonempty_reason(M, lib, g2, gg, gg.ev(c2), strip_casts(c2['args'][pidx[0]]), k_needed, _depth + 1)
+                if r is None:
+                    reasons = []
+                    break
+                reasons.append('%s: %s' % (g2['q'].split('::')[-1], r))
+            if reasons:
+                return 'reference parameter; at every call site the argument is non-empty (%s)' % '; '.join(reasons)[:200]
     # J3: enclosing iteration over the same sequence
     for st in walk_stmts(f['body']):
         if st['k'] == 'rangefor' and show(strip_casts(st['range'])) == sname:
